@@ -417,7 +417,7 @@ impl Hist {
                 format!("rewrite (same content) {:?}", p)
             }
             Op::BulkCreate(k) => {
-                let n = 700 + pick(*k, 700);
+                let n = 700 + pick(*k, 300);
                 self.counter += 1;
                 let batch = self.counter;
                 for i in 0..n {
